@@ -88,6 +88,29 @@ Fixpoint strip (j : json) : json :=
   | _ => j
   end.
 
+(* the repaired shape: the UI-only block is dropped at the top level of the metadata only and the raw source only
+   inside the entries of param_expressions; parameter and variable NAMES are kept whatever they are spelled *)
+Definition kfilter (g : string -> bool) (m : list (string * json)) : list (string * json) :=
+  filter (fun kv => g (fst kv)) m.
+Definition kmap (F : string -> json -> json) (m : list (string * json)) : list (string * json) :=
+  map (fun kv => (fst kv, F (fst kv) (snd kv))) m.
+Definition strip_entry (j : json) : json :=
+  match j with
+  | JObj m => JObj (kfilter (fun k => negb (String.eqb k node_sem_dropped_key)) m)
+  | _ => j
+  end.
+Definition strip_entries (j : json) : json :=
+  match j with
+  | JObj es => JObj (kmap (fun _ => strip_entry) es)
+  | _ => j
+  end.
+Definition strip_top (m : list (string * json)) : list (string * json) :=
+  kmap (fun k v => if String.eqb k "param_expressions" then strip_entries v else v)
+       (kfilter (fun k => negb (mem_str k ui_only_keys)) m).
+Definition strip_scoped (j : json) : json := match j with JObj m => JObj (strip_top m) | _ => j end.
+(* which of the two the code does is read from compute_node_semantic_id on every run *)
+Definition strip_block (j : json) : json := if node_sem_strip_scoped then strip_scoped j else strip j.
+
 Definition lastn {A} (k : nat) (l : list A) : list A := skipn (List.length l - k) l.
 
 Definition raw_ctx_keys (s : sweep) : list string :=
@@ -134,7 +157,7 @@ Definition sweep_meta (n : node) (s : sweep) : json :=
                  ("context_keys", jstrs (ctx_keys s))])].
 
 Definition node_sem_pre (n : node) (s : sweep) : string :=
-  node_sem_prefix ++ dumps_sorted (strip (sweep_meta n s)).
+  node_sem_prefix ++ dumps_sorted (strip_block (sweep_meta n s)).
 Definition node_sem_id (n : node) : string :=
   match n_sweep n with Some s => H (node_sem_pre n s) | None => "none" end.
 
